@@ -72,9 +72,11 @@ fn second_problem_same_world_v(scn: &mut Scenario, rng: &mut Xo, invalid_start: 
         }
     }
     let g = scn.problems[0].goal.clone();
+    // a third of the time the new query keeps the old goal (the same goal object, another start)
+    let same_goal = !own_space && rng.chance(0.33);
     scn.problems.push(ProblemSpec {
         starts: vec![s2],
-        goal: GoalSpec { target: t2, radius: g.radius, sampler: g.sampler, sampler_seed: g.sampler_seed + 1, comp: None },
+        goal: if same_goal { g.clone() } else { GoalSpec { target: t2, radius: g.radius, sampler: g.sampler, sampler_seed: g.sampler_seed + 1, comp: None } },
         world: 0,
         space: sp,
     });
@@ -95,6 +97,9 @@ pub fn with_setup_histories(scn: &mut Scenario, rng: &mut Xo, max_iters: u64) {
 pub fn with_histories(scn: &mut Scenario, rng: &mut Xo, max_iters: u64, second: &[&'static str], fault_start: bool) {
     if scn.planner.kind == PlannerKind::PRM && fault_start {
         second_problem_same_world(scn, rng, true);
+    } else if scn.planner.kind == PlannerKind::PRM && rng.chance(0.3) {
+        // multi-query use: another start (often the same goal object) in the same world
+        second_problem_same_world(scn, rng, false);
     } else if scn.planner.kind != PlannerKind::PRM && rng.chance(0.25) {
         // the same world (hence the same checker object), often the same start, another space
         let same_start = rng.chance(0.6);
@@ -108,12 +113,24 @@ pub fn with_histories(scn: &mut Scenario, rng: &mut Xo, max_iters: u64, second: 
     let it = |rng: &mut Xo| gen::affordable_iters(&pl, l, ext, 1 + rng.below(max_iters));
     let prm = scn.planner.kind == PlannerKind::PRM;
     let calls: Vec<CallSpec> = if prm {
-        match rng.below(6) {
+        match rng.below(8) {
             0 => vec![CallSpec::Setup { problem: 0 }, gen::construct_call(it(rng)), solve_budget(1), CallSpec::SetProblem { problem: 1 }, solve_budget(1)],
             1 => vec![CallSpec::Setup { problem: 0 }, gen::construct_call(it(rng)), CallSpec::SetProblem { problem: 1 }, solve_budget(1)],
             2 => vec![CallSpec::Setup { problem: 0 }, gen::construct_call(it(rng)), CallSpec::Setup { problem: 1 }, gen::construct_call(it(rng)), solve_budget(1)],
             3 => vec![CallSpec::Setup { problem: 1 }, gen::construct_call(it(rng)), gen::construct_call(it(rng)), solve_budget(1), solve_budget(1)],
             4 => vec![CallSpec::Setup { problem: 0 }, gen::construct_call(it(rng)), CallSpec::SetProblem { problem: 1 }, CallSpec::SetProblem { problem: 0 }, solve_budget(1)],
+            // a solved query, then everything again from setup (the same or the other problem):
+            // whatever the first query left behind refers to a roadmap that no longer exists
+            6 | 7 => {
+                let (a, b) = (it(rng), it(rng));
+                let second = if rng.chance(0.5) { 0 } else { 1 };
+                let mut v = vec![CallSpec::Setup { problem: 0 }, gen::construct_call(a), solve_budget(1), CallSpec::Setup { problem: second }, gen::construct_call(if rng.chance(0.5) { a } else { b }), solve_budget(1)];
+                if rng.chance(0.3) {
+                    v.push(CallSpec::SetProblem { problem: 1 - second });
+                    v.push(solve_budget(1));
+                }
+                v
+            }
             _ => vec![CallSpec::Setup { problem: 0 }, gen::construct_call(it(rng)), solve_budget(1)],
         }
     } else {
@@ -969,7 +986,7 @@ impl Check for C08 {
         "fault_enumeration"
     }
     fn rule(&self) -> String {
-        "index ranges, in order: (1) EVERY call sequence up to length 4 (quick) / 6 (thorough) over {new, setup(P1), setup(P2), construct_roadmap, set_problem_definition(P2), solve} for PRM and over {new, setup(P1), setup(P2), solve} for the tree planners, each in a generated two-problem world, checked call by call against a reference state machine; (2) for every planner x {uniform sampler, goal sampler}: the sampler fails at its k-th call for EVERY k <= 16 (quick) / 64 (thorough); (3) goal bias in {-0.1, 1.5, NaN}, empty start list, unbounded R^n, negative step; (4) seeded well-formed scenarios from all world families. distinct = distinct scenario hash; non-trivial = the sequence contains a solve or construct call that executed (ranges 1, 4) or the injected fault actually fired while the planner was running (ranges 2, 3)".into()
+        "index ranges, in order: (1) EVERY call sequence up to length 4 (quick) / 6 (thorough) over {new, setup(P1), setup(P2), construct_roadmap, set_problem_definition(P2), solve} for PRM and over {new, setup(P1), setup(P2), solve} for the tree planners, each in a generated two-problem world, checked call by call against a reference state machine; (2) for every planner x {uniform sampler, goal sampler}: the sampler fails at its k-th call for EVERY k <= 16 (quick) / 64 (thorough); (3) goal bias in {-0.1, 1.5, NaN}, empty start list, unbounded R^n, negative step; (4) a quarter of the remaining indices: seeded call sequences of 5..12 calls over the same alphabets (equal roadmap sample budgets, second problem sharing the first one's goal object half of the time), the rest: seeded well-formed scenarios from all world families with setup / re-setup / replacement histories. Problem-definition and goal objects are kept and re-used across calls (fresh objects in a quarter of the scenarios). distinct = distinct scenario hash; non-trivial = the sequence contains a solve or construct call that executed (ranges 1, 4) or the injected fault actually fired while the planner was running (ranges 2, 3)".into()
     }
     fn default_runs(&self, tier: Tier) -> u64 {
         let l = c08_layout(tier);
@@ -1075,6 +1092,37 @@ impl Check for C08 {
                 }
             }
             scn.params.insert("c08_range".into(), 3.0);
+            return scn;
+        }
+        // (4a) seeded call sequences longer than the enumerated ones (5..12 calls), biased toward
+        // sequences in which queries actually run: setup, construct and solve are more frequent
+        if i % 4 == 0 {
+            let kind = *rng.pick(&PlannerKind::ALL);
+            let mut scn = c08_small_world(&mut rng, kind, seed, index);
+            // the second problem keeps the first one's goal half of the time (same goal object)
+            if rng.chance(0.5) {
+                scn.problems[1].goal = scn.problems[0].goal.clone();
+            }
+            let alpha: &[Op] = if kind == PlannerKind::PRM {
+                &[Op::New, Op::Setup0, Op::Setup0, Op::Setup1, Op::Construct, Op::Construct, Op::SetProblem1, Op::Solve, Op::Solve, Op::Solve]
+            } else {
+                &[Op::New, Op::Setup0, Op::Setup0, Op::Setup1, Op::Solve, Op::Solve, Op::Solve]
+            };
+            let n = rng.usize_in(5, 12);
+            let samples = 10 + rng.below(40);
+            scn.family = "long_call_sequence".into();
+            scn.calls = (0..n)
+                .map(|_| match *rng.pick(alpha) {
+                    Op::New => CallSpec::New,
+                    Op::Setup0 => CallSpec::Setup { problem: 0 },
+                    Op::Setup1 => CallSpec::Setup { problem: 1 },
+                    // equal sample budgets: a rebuilt roadmap has exactly as many samples as the old one
+                    Op::Construct => gen::construct_call(samples),
+                    Op::SetProblem1 => CallSpec::SetProblem { problem: 1 },
+                    Op::Solve => solve_budget(1 + rng.below(60)),
+                })
+                .collect();
+            scn.params.insert("c08_range".into(), 1.0);
             return scn;
         }
         // (4) well-formed scenarios from all families
